@@ -79,6 +79,16 @@ func (i *interp) where() string {
 	return fr.fn.String() + " " + i.prog.Fset.Position(fr.cur.Pos()).String()
 }
 
+// findFunc looks a package-level function up by bare name (harness stubs).
+func (i *interp) findFunc(name string) *ssa.Function {
+	for _, p := range i.prog.AllPackages() {
+		if f := p.Func(name); f != nil && strings.HasPrefix(name, "verif") {
+			return f
+		}
+	}
+	return nil
+}
+
 func (i *interp) stack() string {
 	var sb strings.Builder
 	n := 0
@@ -472,6 +482,15 @@ func (i *interp) callSSA(caller *frame, callpos token.Pos, fn *ssa.Function, arg
 		name := fn.String()
 		if fn.Origin() != nil {
 			name = fn.Origin().String()
+		}
+		if stub, ok := i.cfg.FuncStubs[name]; ok {
+			sf := i.findFunc(stub)
+			if sf == nil {
+				unsupported("stub function %s for %s not found", stub, name)
+			}
+			if sf != fn {
+				return i.callSSA(caller, callpos, sf, args, nil)
+			}
 		}
 		if ext := i.intrinsic(name, fn); ext != nil {
 			i.curFrame = fr
